@@ -246,9 +246,12 @@ func (cl *Client) refreshSession(s *session) (bool, error) {
 	s.mux.RLock()
 	realm := s.realm
 	renewTill := s.renewTill
+	endTime := s.endTime
 	s.mux.RUnlock()
 	cl.Log("refreshing TGT session for %s", realm)
-	if time.Now().UTC().Before(renewTill) {
+	// Only a ticket that is still valid can be renewed: a KDC refuses an expired one (RFC 4120 section 3.3.3.1)
+	// although its renew-till time lies in the future. An expired TGT is replaced through a new login.
+	if now := time.Now().UTC(); now.Before(renewTill) && now.Before(endTime) {
 		err := cl.renewTGT(s)
 		return true, err
 	}
